@@ -1156,11 +1156,11 @@ func run(c *vf.Ctx) {
 	c.Logf("bip39 done")
 
 	// bcrypt-bound parts
-	nArm := c.N(14, 100)
+	nArm := c.N(28, 100)
 	nMut := c.N(8, 0)
 	c.Parallel(nArm, workers, 400000, func(i int, r *rand.Rand) { armorCase(c, i, r, nMut, !c.Quick()) })
 	c.Logf("armor done")
-	nKb := c.N(7, 100)
+	nKb := c.N(14, 100)
 	c.Parallel(nKb, workers, 500000, func(i int, r *rand.Rand) { keybaseCase(c, i, r, wl) })
 	nWin := c.N(4, 16)
 	c.Parallel(nWin, workers, 600000, func(i int, r *rand.Rand) { bcryptWindowCase(c, i, r) })
